@@ -216,6 +216,15 @@ func IteInt64(c bool, a, b int64) int64 {
 	return b
 }
 func BytesEqual(a, b []byte) bool { return bytes.Equal(a, b) }
+func IteByte(c bool, a, b byte) byte {
+	if c {
+		return a
+	}
+	return b
+}
+
+// SelectByte returns xs[i] (an ite-chain in the engine; i must be in range).
+func SelectByte(xs []byte, i int) byte { return xs[i] }
 
 // SelectInt64 returns xs[i] (an ite-chain in the engine; i must be in range).
 func SelectInt64(xs []int64, i int) int64 { return xs[i] }
